@@ -139,6 +139,11 @@ def unit_save(shape):
                     conf = q.heap[('dict', q.heap[('f', cfg.oid, 'config')].did)]
                     for (k0, v0) in pairs:
                         if not isinstance(v0, VList):
+                            # a text option (String parser): what reads return afterwards is the text that was sent
+                            cur = [v_ for k_, v_ in conf if isinstance(k_, VStr) and k_.t.eq(k0.t)]
+                            ctx.oblige('post.saved_text_value_reads_back_as_sent', q,
+                                       zand(B(len(cur) == 1 and isinstance(cur[0], VStr)), cur[0].t == v0.t) if len(cur) == 1 and isinstance(cur[0], VStr) else B(False),
+                                       clause='after Tor acknowledges, reads return the saved values')
                             continue
                         cur = [v_ for k_, v_ in conf if isinstance(k_, VStr) and k_.t.eq(k0.t)]
                         ctx.oblige('post.saved_list_is_the_tracked_list_the_caller_holds', q,
@@ -210,7 +215,7 @@ def unit_setattr(kind0):
         name = z3.String('name')
         ctx.input('name', VStr(name))
         path.assume(F_lower_ne_hidden(name))
-        parser = {'string': tc.String(), 'boolean': tc.Boolean(), 'linelist': tc.LineList(), 'portlist': tc.String(),
+        parser = {'string': tc.String(), 'filename': tc.Filename(), 'boolean': tc.Boolean(), 'linelist': tc.LineList(), 'portlist': tc.String(),
                   'portlist_from_tracked': tc.String()}[kind]
         path.heap[('dict', path.heap[('f', cfg.oid, 'parsers')].did)] = ((VStr(name), VConc(parser)),)
         tracked_for = None
@@ -240,6 +245,10 @@ def unit_setattr(kind0):
             u = p.heap[('dict', p.heap[('f', cfg.oid, 'unsaved')].did)]
             ok = len(u) == 1 and isinstance(u[0][0], VStr)
             ctx.oblige('post.option_becomes_pending', p, zand(B(ok), u[0][0].t == name) if ok else B(False))
+            if ok and kind in ('string', 'filename'):
+                v = u[0][1]
+                ctx.oblige('post.text_value_becomes_pending_exactly_as_assigned', p, v.t == z3.String('value') if isinstance(v, VStr) else B(False),
+                           clause='scalar options once with their validated value (text types: the text the application assigned)')
             if ok and kind == 'boolean':
                 v = u[0][1]
                 ctx.oblige('post.boolean_validated_to_0_or_1', p,
@@ -272,7 +281,7 @@ def units():
     out = [('C10/save/%s' % s, unit_save(s)) for s in ('nothing', 'scalar', 'list2', 'scalar_list', 'list_scalar', 'emptied', 'emptied_scalar')]
     out += [('C10/_save_completed', unit_save_completed()), ('C10/mark_unsaved/new', unit_mark_unsaved(False)),
             ('C10/mark_unsaved/already_pending', unit_mark_unsaved(True))]
-    out += [('C10/__setattr__/%s' % k, unit_setattr(k)) for k in ('string', 'boolean', 'linelist', 'portlist', 'portlist_from_tracked')]
+    out += [('C10/__setattr__/%s' % k, unit_setattr(k)) for k in ('string', 'filename', 'boolean', 'linelist', 'portlist', 'portlist_from_tracked')]
     return out
 
 
